@@ -78,7 +78,7 @@ func (e *c16Env) constWrites(f *flow.Func, n ast.Node, root types.Object) map[*t
 			}
 		}
 	case *ast.CallExpr:
-		fo, ok := f.Callee(s).(*types.Func)
+		fo, ok := c16FnOK(f, s)
 		if !ok || fo.Pkg() == nil || fo.Pkg().Path() != "sync/atomic" || len(s.Args) < 2 {
 			return out
 		}
@@ -128,7 +128,7 @@ func (e *c16Env) takeoverWrites(f *flow.Func, n ast.Node, reg map[types.Object]b
 		case *ast.GoStmt, *ast.DeferStmt:
 			return out
 		}
-		if fo, ok := f.Callee(call).(*types.Func); ok && reg[c16Obj(f, c16Recv(call))] {
+		if fo, ok := c16FnOK(f, call); ok && reg[c16Obj(f, c16Recv(call))] {
 			for k, v := range e.methodWrites(e.decls[fo]) {
 				out[k] = v
 			}
@@ -164,24 +164,28 @@ func (e *c16Env) marks() map[*types.Var]constant.Value {
 		return e.markVals
 	}
 	e.markVals = map[*types.Var]constant.Value{}
-	f := fnOpt(e.c, mq, "Broker", "handleConn")
+	f := e.anchor("handleConn")
 	if f == nil {
 		return e.markVals
 	}
-	reg, _, _ := e.handleConnRegVars(f)
-	pm := parentMap(f.Body)
-	ast.Inspect(f.Body, func(n ast.Node) bool {
-		switch n.(type) {
-		case *ast.FuncLit:
-			return false
-		case *ast.GoStmt, *ast.DeferStmt:
-			return false
+	for _, g := range reach(f, 3) {
+		g := g
+		reg, _, _ := e.handleConnRegVars(g)
+		if len(reg) == 0 {
+			continue
 		}
-		for k, v := range e.takeoverWrites(f, n, reg, pm) {
-			e.markVals[k] = v
-		}
-		return true
-	})
+		pm := parentMap(g.Body)
+		ast.Inspect(g.Body, func(n ast.Node) bool {
+			switch n.(type) {
+			case *ast.GoStmt, *ast.DeferStmt:
+				return false // not performed under the lock / before the registration
+			}
+			for k, v := range e.takeoverWrites(g, n, reg, pm) {
+				e.markVals[k] = v
+			}
+			return true
+		})
+	}
 	return e.markVals
 }
 
@@ -213,7 +217,7 @@ func (e *c16Env) evalMark(f *flow.Func, x ast.Expr, fld *types.Var, val constant
 		if !isC || len(call.Args) != 1 {
 			return false
 		}
-		fo, isF := f.Callee(call).(*types.Func)
+		fo, isF := c16FnOK(f, call)
 		if !isF || fo.Pkg() == nil || fo.Pkg().Path() != "sync/atomic" || !strings.HasPrefix(fo.Name(), "Load") {
 			return false
 		}
@@ -309,7 +313,7 @@ func (e *c16Env) supFacts(f *flow.Func, isReg func(ast.Expr) bool) []c16SupFact 
 				}
 			}
 		case *ast.CallExpr:
-			fo, ok := f.Callee(x).(*types.Func)
+			fo, ok := c16FnOK(f, x)
 			if !ok || isReg(c16Recv(x)) {
 				return true
 			}
@@ -354,24 +358,41 @@ func c16MarkWritten(e *c16Env) {
 	if len(e.markRelied) == 0 {
 		return
 	}
-	f := fn(c, mq, "Broker", "handleConn")
+	f := e.anchor("handleConn")
 	if f == nil {
 		return
 	}
-	cons := fname(mq, "Broker", "handleConn") + "|replaced registration is marked superseded"
-	reg, foundT, foundF := e.handleConnRegVars(f)
-	pm := parentMap(f.Body)
+	cons := e.fnameOf(f) + "|replaced registration is marked superseded"
+	reg := map[types.Object]bool{}
+	var foundT, foundF []string
+	pm := map[ast.Node]ast.Node{}
 	var stores []ast.Node
-	ast.Inspect(f.Body, func(n ast.Node) bool {
-		if as, ok := n.(*ast.AssignStmt); ok {
-			for _, l := range as.Lhs {
-				if e.isClientsLookup(f, l) {
-					stores = append(stores, as)
+	for _, g := range reach(f, 3) {
+		r, ft, ff := e.handleConnRegVars(g)
+		for o := range r {
+			reg[o] = true
+		}
+		for _, k := range ft {
+			foundT = c16AddKey(foundT, k)
+		}
+		for _, k := range ff {
+			foundF = c16AddKey(foundF, k)
+		}
+		for k, v := range parentMap(g.Body) {
+			pm[k] = v
+		}
+		g := g
+		ast.Inspect(g.Body, func(n ast.Node) bool {
+			if as, ok := n.(*ast.AssignStmt); ok {
+				for _, l := range as.Lhs {
+					if e.isClientsLookup(g, l) {
+						stores = append(stores, as)
+					}
 				}
 			}
-		}
-		return true
-	})
+			return true
+		})
+	}
 	if !c.RequireCount("R-C16-3", "stores into Broker.clients in handleConn", len(stores), 1) {
 		return
 	}
@@ -382,9 +403,77 @@ func c16MarkWritten(e *c16Env) {
 			}
 		}
 	}
+	absentIn := func(st *flow.State) bool {
+		absent := false
+		for _, k := range foundT {
+			absent = absent || st.Is(k, flow.False)
+		}
+		for _, k := range foundF {
+			absent = absent || st.Is(k, flow.True)
+		}
+		return absent
+	}
+	// a local closure called in place is opaque to the engine: summarise it ("every exit on which a
+	// registered connection was found has marked it") and apply the summary at its call
+	closureOK := map[*ast.FuncLit]int{}
+	closureMarks := func(lit *ast.FuncLit) bool {
+		if v := closureOK[lit]; v != 0 {
+			return v == 2
+		}
+		closureOK[lit] = 1
+		lf := f.Lit(lit)
+		r := analyze(c, lf, flow.Config{NoHavoc: true,
+			OnNode: func(st *flow.State, n ast.Node) { mark(st, n) },
+			OnCall: func(st *flow.State, call *ast.CallExpr, callee types.Object, d bool) { mark(st, call) }})
+		if r == nil {
+			return false
+		}
+		marksSomething := false
+		for _, ex := range r.Exits {
+			if !c16RealExit(ex) {
+				continue
+			}
+			all := true
+			for fld := range e.markRelied {
+				all = all && ex.State.Is("ev:c16marked:"+fld.Name(), flow.True)
+			}
+			if all {
+				marksSomething = true
+			} else if !absentIn(ex.State) {
+				return false
+			}
+		}
+		if marksSomething {
+			closureOK[lit] = 2
+		}
+		return marksSomething
+	}
 	res := analyze(c, f, flow.Config{NoHavoc: true,
+		Inline: e.inlineWhere(f, func(g *flow.Func, n ast.Node) bool {
+			if as, ok := n.(*ast.AssignStmt); ok {
+				for _, x := range append(append([]ast.Expr{}, as.Lhs...), as.Rhs...) {
+					if e.isClientsLookup(g, x) {
+						return true
+					}
+				}
+			}
+			return false
+		}),
 		OnNode: func(st *flow.State, n ast.Node) { mark(st, n) },
-		OnCall: func(st *flow.State, call *ast.CallExpr, callee types.Object, d bool) { mark(st, call) }})
+		OnCall: func(st *flow.State, call *ast.CallExpr, callee types.Object, d bool) {
+			mark(st, call)
+			if id, ok := ast.Unparen(call.Fun).(*ast.Ident); ok && !c16IsFunc(callee) {
+				if rhs := c16DefRHS(f, c16Obj(f, id)); len(rhs) == 1 {
+					if lit, ok := ast.Unparen(rhs[0]).(*ast.FuncLit); ok {
+						if _, async := pm[call].(*ast.GoStmt); !async && closureMarks(lit) {
+							for fld := range e.markRelied {
+								st.Set("ev:c16marked:"+fld.Name(), flow.True)
+							}
+						}
+					}
+				}
+			}
+		}})
 	if res == nil {
 		return
 	}
@@ -393,14 +482,7 @@ func c16MarkWritten(e *c16Env) {
 	for _, s := range stores {
 		for _, st := range res.At[s] {
 			n++
-			absent := false
-			for _, k := range foundT {
-				absent = absent || st.Is(k, flow.False)
-			}
-			for _, k := range foundF {
-				absent = absent || st.Is(k, flow.True)
-			}
-			if absent {
+			if absentIn(st) {
 				continue
 			}
 			for fld := range e.markRelied {
@@ -412,4 +494,9 @@ func c16MarkWritten(e *c16Env) {
 	}
 	c.Check(bad == nil && n > 0, "R-C16-3", cons, pos(c, stores[0]), sprintf("%d states reach the store into Broker.clients; every one that may replace a registered connection has set the supersession mark on it", n),
 		"handleConn can replace the connection registered under a client id without setting the supersession mark the teardown relies on: the replaced connection's late teardown (after its successor has gone and nothing is registered any more) then still removes what is keyed by the id - the successor's stored session", witness(bad)...)
+}
+
+func c16IsFunc(o types.Object) bool {
+	_, ok := o.(*types.Func)
+	return ok
 }
